@@ -1,7 +1,7 @@
 """C12 - keep-alives and timeouts: idle links stay up, dead peers are detected, setters work."""
 import collections
 
-from checks.common import UdpCheck, Monitor, MTUS
+from checks.common import UdpCheck, Monitor, MTUS, QueueConservation
 from world.udpworld import ConnectionStatus, SERVER_ADDR, client_addr
 
 CLIENT_DROP_S = 5.0       # fixed in ClientServerConnection.update
@@ -95,6 +95,10 @@ class C12(UdpCheck):
                          "keep_alive": c_keep, "t0": rng.random() * 0.05}],
             "phases": [], "scenario": scen,
         }
+        # (a handshake needs three one-way trips: the handshake timeout has to leave room for them)
+        tt = cfg["server"]["temp_timeout"]
+        if tt is not None and tt < 3 * (lat + jit) + 4 * max(interval, dt) + 0.3:
+            cfg["server"]["temp_timeout"] = 2.0 if 3 * (lat + jit) + 0.5 < 2.0 else 4.0
         plan = [{"op": "connect", "c": 0, "t": 0.05, "cb": True}]
         if scen == "ctx":
             # ServerContext setters: handshake (temp) timeout and message timeout, observed on the server side.
@@ -104,7 +108,8 @@ class C12(UdpCheck):
             smsg = rng.choice([0.4, 1.5, 2.5])
             cfg["server"]["temp_timeout"] = ttemp
             cfg["server"]["msg_timeout"] = smsg
-            cfg["latency"] = max(cfg["latency"], 0.02)
+            cfg["latency"] = min(max(cfg["latency"], 0.02), 0.05)      # the short handshake timeouts below must leave room for c1
+            cfg["jitter"] = min(cfg["jitter"], 0.005)
             plan = [{"op": "connect", "c": 1, "t": 0.05, "cb": True},
                     {"op": "connect", "c": 0, "t": 1.0, "cb": True, "pre": [["conn_timeout", 6.0]]}]
             cfg["phases"].append({"t0": 1.0 + 2.2 * dt, "t1": 10 ** 9, "src": "c0", "dst": "S", "cut": True})
@@ -125,10 +130,15 @@ class C12(UdpCheck):
         elif scen == "outage":
             # a transient outage, shorter than both liveness timeouts, that swallows many consecutive datagrams
             # (often more than the 32-packet window), then a healed network: the connection must survive
-            limit = min(conn_to or 5.0, CLIENT_DROP_S)
-            d = round(min(limit * rng.choice([0.2, 0.5, 0.7, 0.85]), limit - 2 * max(c_emit, s_emit) - 0.3), 3)
-            if d < 0.2:
-                d = 0.2
+            # an outage of d seconds can swallow one datagram on each side of it: the silence a peer sees is up to
+            # d + 2 emission periods, which must stay below its timeout - otherwise the drop would be legitimate
+            if (conn_to or 5.0) < 2 * c_emit + 0.6:
+                conn_to = cfg["server"]["conn_timeout"] = 5.0 if 2 * c_emit + 0.6 <= 5.0 else 12.0
+            if CLIENT_DROP_S < 2 * s_emit + 0.6:
+                s_keep = cfg["server"]["keep_alive"] = 0.5
+                s_emit = 0.5 + max(interval, 1 / 60) + lat + jit + 0.05
+            limit = min((conn_to or 5.0) - 2 * c_emit, CLIENT_DROP_S - 2 * s_emit) - 0.3
+            d = round(max(0.05, limit * rng.choice([0.2, 0.5, 0.7, 0.9])), 3)
             tc = round(2.0 + rng.random() * 2.0, 4)
             cfg["outage"] = {"t": tc, "d": d}
             cfg["phases"].append({"t0": tc, "t1": tc + d, "cut": True})
@@ -198,7 +208,8 @@ class C12(UdpCheck):
 
     def monitors(self, case):
         self.mon = TimingMonitor()
-        return [self.mon]
+        self.qc = QueueConservation()
+        return [self.mon, self.qc]
 
     def nontrivial(self, w, case):
         return getattr(w, "reached", False)
@@ -210,6 +221,11 @@ class C12(UdpCheck):
 
     # ------------------------------------------------------------------ oracle
     def judge(self, w, case):
+        vs = self.judge_scenario(w, case) or []
+        interval = case["cfg"]["server"]["interval"]
+        return vs + self.qc.judge(w, 3 * max(interval, 1 / 60) + case["cfg"]["reactor_lag"] + case["cfg"].get("wake_lag", 0) + 0.02)
+
+    def judge_scenario(self, w, case):
         vs = []
         cfg = case["cfg"]
         scen = cfg["scenario"]
